@@ -1279,6 +1279,93 @@ def large_map_cases(chk, n):
             chk.fail("C02 fails on a large map: " + "; ".join(why[:2]), case, got)
 
 
+def half_precision_cases(chk, n):
+    """Half-precision confidence maps (a network running under autocast): bfloat16 / float16 cannot hold
+    integers beyond 256 / 2048, so a peak finder that computes coordinates in the map's dtype loses cells
+    there.  Ideal maps (repo's `generate_confmaps`, cast to the half dtype) with keypoints BEYOND those
+    limits, integral refinement, through the real `SingleInstanceInferenceModel.forward` (model: `single`
+    driver line with the offset measured on the half-precision map) and the real `FindInstancePeaks.forward`
+    (+ the consumer's `peak + bbox top-left`; oracle only)."""
+    import torch
+    from sleap_nn.data.confidence_maps import generate_confmaps
+    from sleap_nn.inference.single_instance import SingleInstanceInferenceModel
+    from sleap_nn.inference.topdown import FindInstancePeaks
+
+    class Fixed(torch.nn.Module):
+        def __init__(self, cms):
+            super().__init__()
+            self.cms = cms
+
+        def forward(self, x):
+            return self.cms
+    rng = chk.rng
+    specs = [(torch.bfloat16, 24, 330, 256), (torch.float16, 16, 2200, 2048), (torch.bfloat16, 300, 40, 256)]
+    jobs, lines = [], []
+    for i in range(n):
+        dt, Hm, Wm, lim = specs[i % len(specs)]
+        os_ = rng.choice([1, 2])
+        H, W = Hm * os_, Wm * os_
+        pts = []
+        for k in range(2):
+            if Wm > Hm:
+                gx, gy = rng.uniform(lim + 5, Wm - 5), rng.uniform(4, Hm - 5)
+            else:
+                gx, gy = rng.uniform(4, Wm - 5), rng.uniform(lim + 5, Hm - 5)
+            # within ±0.3 cell of a cell centre (general position), on the 1/16 lattice
+            pts.append([(round(gx) + rng.uniform(-0.3, 0.3)) * os_, (round(gy) + rng.uniform(-0.3, 0.3)) * os_])
+        pts = [[round(p[0] * 16) / 16, round(p[1] * 16) / 16] for p in pts]
+        cms32 = generate_confmaps(torch.tensor([pts], dtype=torch.float32), img_hw=(H, W), sigma=1.5, output_stride=os_)
+        cms = cms32.to(dt)
+        back = cms.to(torch.float64).numpy()[0]
+        ds = [channel_peak(back[k], "integral")[3] for k in range(2)]
+        jobs.append({"dt": str(dt), "os": os_, "H": H, "W": W, "pts": pts, "cms": cms, "ds": ds})
+        lines.append(f"single 1 1 1 {os_} 1 - - {H} {W} " + pts_line(pts, ds))
+    model = run_driver("C02.lean", lines) if lines else []
+    for jb, ml in zip(jobs, model):
+        os_, pts, cms = jb["os"], jb["pts"], jb["cms"]
+        case = {"family": "half_precision_maps", "dtype": jb["dt"], "os": os_, "map_hw": list(cms.shape[-2:]), "pts": pts}
+        mp = parse_pts(ml.split()[4:], 2)
+        got = {}
+        try:
+            m = SingleInstanceInferenceModel(torch_model=Fixed(cms), output_stride=os_, peak_threshold=0.2,
+                                             refinement="integral", integral_patch_size=5, input_scale=1.0)
+            out = m({"image": torch.zeros((1, 1, 1, 4, 4)), "eff_scale": torch.tensor([1.0])})[0]
+            got["single"] = [[float(q[0]), float(q[1])] for q in out["pred_instance_peaks"][0].to(torch.float32)]
+            # the crop stage: same map seen as a crop whose top-left is (tlx, tly) in a frame scaled by si·eff
+            si, eff, tl = 1.0, 1.25, (37.5, 11.5)
+            f = FindInstancePeaks(torch_model=Fixed(cms), output_stride=os_, peak_threshold=0.2, refinement="integral",
+                                  integral_patch_size=5, input_scale=si, max_stride=1)
+            bb = torch.tensor([[[[tl[0], tl[1]], [tl[0] + jb["W"] - 1, tl[1]], [tl[0] + jb["W"] - 1, tl[1] + jb["H"] - 1],
+                                 [tl[0], tl[1] + jb["H"] - 1]]]], dtype=torch.float32)
+            o2 = f({"instance_image": torch.zeros((1, 1, 1, jb["H"], jb["W"])), "instance_bbox": bb,
+                    "eff_scale": torch.tensor([eff])})
+            fin = o2["pred_instance_peaks"][0].to(torch.float32) + o2["instance_bbox"][0, 0, 0][None, :]
+            got["crop_stage"] = [[float(q[0]), float(q[1])] for q in fin]
+        except Exception as e:
+            chk.disagree("implementation raised where the model does not", case, f"raise:{type(e).__name__}: {str(e)[:200]}", "ok")
+            chk.fail(f"C02: inference on {jb['dt']} confidence maps raised {type(e).__name__}: {str(e)[:160]}", case, None)
+            continue
+        chk.case(("half", jb["dt"], os_, tuple(map(tuple, pts))), {"case": "half_precision", **case, "impl": got, "model": ml[:200]},
+                 tags=["half_precision_maps", jb["dt"]])
+        why = []
+        for k, p in enumerate(pts):
+            g, mm = got["single"][k], mp[k]
+            if any(x != x for x in g) or abs(g[0] - float(mm["x"])) > 2e-3 * max(1, abs(g[0]) / 256) or \
+                    abs(g[1] - float(mm["y"])) > 2e-3 * max(1, abs(g[1]) / 256):
+                chk.disagree("single-instance on half-precision maps == Decode.singlePoint (measured offset)", {**case, "node": k},
+                             g, [float(mm["x"]), float(mm["y"])])
+            bnd = bound_px(os_, 1.0, 1.0)
+            if any(x != x for x in g) or max(abs(g[0] - p[0]), abs(g[1] - p[1])) > bnd + TOL:
+                why.append(f"single-instance, {jb['dt']} map: keypoint {p} returned at {g} (bound {bnd} px)")
+            g2 = got["crop_stage"][k]
+            want = [(p[0] + 37.5) / 1.25, (p[1] + 11.5) / 1.25]
+            bnd2 = bound_px(os_, 1.0, 1.25)
+            if any(x != x for x in g2) or max(abs(g2[0] - want[0]), abs(g2[1] - want[1])) > bnd2 + TOL:
+                why.append(f"crop stage, {jb['dt']} map: keypoint at {want} returned at {g2} (bound {bnd2} px)")
+        if why:
+            chk.fail("C02 fails on half-precision confidence maps: " + "; ".join(why[:2]), case, got)
+
+
 def main(chk: Check):
     chk.build_and_audit()
     import_repo()
@@ -1318,12 +1405,29 @@ def main(chk: Check):
         cases.append(gen_topdown_focus(rng, refine=("integral" if i % 4 == 3 else None)))
     run_cases(chk, cases)
     large_map_cases(chk, chk.n(2, 4))
+    half_precision_cases(chk, chk.n(3, 18))
     # failing-input search: the correspondence broke but no input violates the property yet →
     # sweep the focused family (×20 budget) where a wrong centroid/crop/offset becomes visible
     if chk.disagreements and not chk.failing:
         chk.tag("focused_search_runs")
         run_cases(chk, [gen_topdown_focus(rng, refine=("integral" if i % 4 == 3 else None))
                         for i in range(chk.n(120, 600))])
+    reader_accounting(chk)
+
+
+def reader_accounting(chk):
+    """every predictor run terminates its reader thread (stubs._finish_reader); what happened goes into the
+    evidence, and a reader that outlives a FULLY consumed generator is reported (it is the repo's reader
+    that did not end, not the harness abandoning it)"""
+    import sys
+    import threading
+    chk.extra["reader_threads"] = dict(stubs.READER_STATS)
+    chk.extra["threads_alive_at_end"] = threading.active_count()
+    if stubs.READER_STATS["reader_alive_after_full_consumption"]:
+        chk.fail("C12/C13: a reader thread was still alive after its consumer had consumed every output",
+                 {"readers": stubs.READER_LEFTOVERS[:5]}, dict(stubs.READER_STATS))
+    if stubs.READER_STATS["reader_alive_after_drain"] or stubs.READER_STATS["threads_left_over"]:
+        print(f"note: harness could not terminate every reader thread: {stubs.READER_STATS}", file=sys.stderr)
 
 
 def replay(chk: Check, payload):
